@@ -2,6 +2,7 @@ package rules
 
 import (
 	"go/ast"
+	"go/constant"
 	"go/token"
 	"go/types"
 	"regexp"
@@ -15,7 +16,7 @@ import (
 
 func init() {
 	Register("C19", "Decides structural necessary conditions of 'the ordered containers behave like insertion-ordered maps': (del) removal from the order list is control-dependent on the key having been found; (iter) no method mutates the order list while ranging over it; (set) every write that may introduce a key appends it to the order list exactly when it is new, and constructors cannot create duplicates; (sib) the three generated map instances are identical modulo key/value types; (lock) every exported method takes the container's RWMutex in the right mode and releases it by defer; (sep) JSON separators. Does NOT decide full equivalence with a reference dictionary over operation histories.",
-		c19del, c19iter, c19set, c19sib, c11lockRule("C19.lock"), c19sep, c19ctor, mapStoreRule("C19.mapstore"), c19leak, presizeRule("C19.presize"))
+		c19del, c19iter, c19set, c19sib, c11lockRule("C19.lock"), c19sep, c19ctor, mapStoreRule("C19.mapstore"), c19leak, presizeRule("C19.presize"), c19jsonenc)
 }
 
 // container: a struct with fields data (map), order (slice), mx (sync.RWMutex).
@@ -625,4 +626,160 @@ func isResultSlot(f *ssa.Function, al *ssa.Alloc) bool {
 		}
 	}
 	return false
+}
+
+// c19jsonenc: what the containers' MarshalJSON writes into the output buffer is either structural
+// punctuation or the output of a JSON encoder.
+func c19jsonenc(c *core.Ctx) {
+	const R = "C19.jsonenc"
+	c.Rule(R, "every write into the output buffer of a container's MarshalJSON (the method and the module helpers it calls) is either a constant made of JSON punctuation (`{ } [ ] , :`) or a JSON literal, or the bytes returned by encoding/json.Marshal / a MarshalJSON method; the buffer is not handed to any other formatter. Keys and values quoted by hand (strconv.Quote, fmt %q, `\"`+k+`\"`) are not JSON for control characters, DEL and invalid UTF-8")
+	c.Floor(R, 6)
+	for _, ct := range containers(c, R) {
+		var root *ssa.Function
+		for _, f := range ct.methods {
+			if f.Name() == "MarshalJSON" {
+				root = f
+			}
+		}
+		if root == nil {
+			continue
+		}
+		seen := map[*ssa.Function]bool{}
+		var fns []*ssa.Function
+		var add func(f *ssa.Function, d int)
+		add = func(f *ssa.Function, d int) {
+			if f == nil || seen[f] || f.Blocks == nil || d > 3 {
+				return
+			}
+			seen[f] = true
+			fns = append(fns, f)
+			for _, b := range f.Blocks {
+				for _, in := range b.Instrs {
+					if cc, ok := in.(ssa.CallInstruction); ok {
+						if g := cc.Common().StaticCallee(); g != nil && c.P.FuncInModule(g) {
+							add(g, d+1)
+						}
+					}
+				}
+			}
+			for _, an := range f.AnonFuncs {
+				add(an, d+1)
+			}
+		}
+		add(root, 0)
+		isBuf := func(v ssa.Value) bool {
+			t := v.Type()
+			if p, ok := t.Underlying().(*types.Pointer); ok {
+				t = p.Elem()
+			}
+			return t.String() == "bytes.Buffer"
+		}
+		var fromEncoder func(v ssa.Value, d int) bool
+		fromEncoder = func(v ssa.Value, d int) bool {
+			if d > 6 {
+				return false
+			}
+			switch x := v.(type) {
+			case *ssa.Extract:
+				if call, ok := x.Tuple.(*ssa.Call); ok && x.Index == 0 {
+					if g := call.Call.StaticCallee(); g != nil {
+						fn := g.String()
+						return fn == "encoding/json.Marshal" || g.Name() == "MarshalJSON"
+					}
+					return call.Call.IsInvoke() && call.Call.Method.Name() == "MarshalJSON"
+				}
+			case *ssa.Phi:
+				for _, e := range x.Edges {
+					if !fromEncoder(e, d+1) {
+						return false
+					}
+				}
+				return len(x.Edges) > 0
+			case *ssa.ChangeType:
+				return fromEncoder(x.X, d+1)
+			case *ssa.UnOp:
+				// a local slot written only with encoder results
+				if al, ok := x.X.(*ssa.Alloc); ok && x.Op == token.MUL {
+					n := 0
+					for _, r := range *al.Referrers() {
+						if st, ok := r.(*ssa.Store); ok && st.Addr == al {
+							if !fromEncoder(st.Val, d+1) {
+								return false
+							}
+							n++
+						}
+					}
+					return n > 0
+				}
+			}
+			return false
+		}
+		punct := func(s string) bool {
+			switch s {
+			case "null", "true", "false":
+				return true
+			}
+			for _, r := range s {
+				if !strings.ContainsRune("{}[],:", r) {
+					return false
+				}
+			}
+			return true
+		}
+		enc, n := 0, 0
+		for _, f := range fns {
+			for _, b := range f.Blocks {
+				for _, in := range b.Instrs {
+					cc, ok := in.(ssa.CallInstruction)
+					if !ok {
+						continue
+					}
+					com := cc.Common()
+					g := com.StaticCallee()
+					key := core.F("%s.MarshalJSON:%s:write#%d", ct.name, f.Name(), n)
+					if g != nil && g.Signature.Recv() != nil && len(com.Args) == 2 && isBuf(com.Args[0]) && strings.HasPrefix(g.Name(), "Write") {
+						n++
+						arg := com.Args[1]
+						if k, ok := arg.(*ssa.Const); ok && k.Value != nil {
+							s := ""
+							switch k.Value.Kind() {
+							case constant.String:
+								s = constant.StringVal(k.Value)
+							case constant.Int:
+								if v, ok := constant.Int64Val(k.Value); ok {
+									s = string(rune(v))
+								}
+							}
+							if !punct(s) {
+								c.Bad(R, key, c.P.Pos(in.Pos()), ct.name+".MarshalJSON", core.F("writes the constant %q, which is neither JSON punctuation nor a JSON literal: hand-made quoting", s))
+							}
+							continue
+						}
+						if conv, ok := arg.(*ssa.Convert); ok {
+							arg = conv.X
+						}
+						if fromEncoder(arg, 0) {
+							enc++
+							continue
+						}
+						c.Bad(R, key, c.P.Pos(in.Pos()), ct.name+".MarshalJSON", "writes bytes that do not come from encoding/json.Marshal or a MarshalJSON method ("+arg.String()+"): not valid JSON for every key/value")
+						continue
+					}
+					if g != nil && !c.P.FuncInModule(g) {
+						for _, a := range com.Args {
+							if isBuf(a) && !(g.Signature.Recv() != nil && len(com.Args) > 0 && com.Args[0] == a) {
+								c.Bad(R, key, c.P.Pos(in.Pos()), ct.name+".MarshalJSON", "hands the output buffer to "+g.String()+": the bytes it writes are not checked JSON")
+							}
+						}
+					}
+				}
+			}
+		}
+		for i := 0; i < enc; i++ {
+			c.OKd(R, core.F("%s.MarshalJSON:encoded#%d", ct.name, i), "", ct.name, "bytes written come from a JSON encoder")
+		}
+		if enc < 2 {
+			c.Bad(R, ct.name+".MarshalJSON:encoded", c.P.Pos(root.Pos()), ct.name+".MarshalJSON", core.F("only %d of the key and value writes come from a JSON encoder", enc))
+		}
+	}
 }
